@@ -932,7 +932,18 @@ func (w *walker) call(call *ast.CallExpr, fr frame, deferred bool) {
 		}
 		return
 	case AVParam:
-		walkArgs(false)
+		// a function value received as a parameter (a user callback, or a library function handed to a shared helper:
+		// sortWith(cmp, sort.SliceStable)): its literal arguments run synchronously in this context, like those of an
+		// external function called directly
+		for _, a := range call.Args {
+			if lit, ok := ast.Unparen(a).(*ast.FuncLit); ok {
+				if !w.isNestedSC(lit) {
+					w.enterLit(&AV{Kind: AVFunc, Lit: lit, Env: fr.env}, nil, call, fr)
+				}
+				continue
+			}
+			w.node(a, fr)
+		}
 		if w.sc.UserParams[fv.Param] {
 			if _, ok := fv.Param.Type().Underlying().(*types.Signature); ok {
 				w.sc.UserCalls = append(w.sc.UserCalls, &UserCall{Rec: w.rec(call, fr), Call: call, Param: fv.Param})
